@@ -3548,11 +3548,15 @@ class Session(_SessionClassMethods, EventTarget):
 
             self.identity_map.safe_discard(state)
             self._deleted.pop(state, None)
+            already_deleted = state._deleted
             state._deleted = True
             # can't call state._detach() here, because this state
             # is still in the transaction snapshot and needs to be
             # tracked as part of that
-            if persistent_to_deleted is not None:
+            if persistent_to_deleted is not None and not already_deleted:
+                # a state can get here twice, e.g. when an autoflush
+                # inside Session.get() deletes the row and the subsequent
+                # load then finds it gone; the transition happened once
                 persistent_to_deleted(self, state)
 
     def add(self, instance: object, *, _warn: bool = True) -> None:
